@@ -39,9 +39,11 @@ EXIT_EXCS = [Boom, KeyboardInterrupt, BaseBoom, GeneratorExit, SystemExit]
 
 def gen_case(rng, params):
     n_handles, depth, ops, closed = 1, 0, [], False
-    used = []
+    used, made, pending, dropped = [], [], [], set()
     for _ in range(rng.randint(3, 25)):
         h = rng.randrange(n_handles)
+        if h in dropped:
+            h = 0
         k = rng.random()
         if k < 0.08 and not closed:
             # a read_iter() generator of that handle: created (and advanced once) / advanced again later — an iterator
@@ -58,10 +60,25 @@ def gen_case(rng, params):
             ops.append(f"io:{h}:{c}")
         elif k < 0.42:
             ops.append(f"closed:{h}")
-        elif k < 0.52 and depth < 4:
+        elif k < 0.49 and depth < 4:
             ops.append(f"b+:{h}"); depth += 1; n_handles += 1   # (the model decides whether a handle is created)
+            made.append(n_handles - 1)
+        elif k < 0.52 and depth < 4:
+            # the borrow context is CREATED now and entered later (handed to an ExitStack, say): what counts is the
+            # state of the handle when the context is entered
+            ops.append(f"bc:{h}"); pending.append(h)
+        elif k < 0.55 and pending and depth < 4:
+            pending.pop(0)
+            ops.append("be"); depth += 1; n_handles += 1
+            made.append(n_handles - 1)
         elif k < 0.64 and depth > 0:
             ops.append("b-"); depth -= 1
+            if made:
+                b = made.pop()
+                if rng.random() < 0.3 and str(b) not in map(str, pending):
+                    # the borrower object is dropped and collected (a helper function returned): nothing may happen to
+                    # the transport the lender got back
+                    ops.append(f"drop:{b}"); dropped.add(b)
         elif k < 0.74:
             ops.append(f"take:{h}"); n_handles += 1
         elif k < 0.80:
@@ -101,10 +118,17 @@ def cfg_str(ch):
 def lean_line(line):
     """the Lean side knows one kind of I/O: `io:<h>` (which call it is, and whether it is made through a running
     iterator, must not matter)"""
-    out = []
+    out, pending = [], []
     for op in line.split():
         f = op.split(":")
-        out.append(f"io:{f[1]}" if f[0] in ("io", "it+", "it.") else op)
+        if f[0] == "bc":
+            pending.append(f[1])            # creating the context is not an event
+        elif f[0] == "be":
+            out.append(f"b+:{pending.pop(0)}" if pending else "io:9999")
+        elif f[0] == "drop":
+            pass                            # nor is dropping a handle object
+        else:
+            out.append(f"io:{f[1]}" if f[0] in ("io", "it+", "it.") else op)
     return " ".join(out)
 
 
@@ -124,16 +148,53 @@ def run_impl(line):
 def _run(line):
     vclock.CLOCK.reset(0)
     io = mockio.ScriptIO([(i, b"a\r\n") for i in range(3000)])
-    handles = [tch.Channel(io)]
+    # the first handle is an instance of the channel class tbot itself creates for local machines (its own
+    # constructor would spawn a shell; the transport of this harness is put in instead)
+    from tbot.machine.channel import subprocess as tsub
+    first = tsub.SubprocessChannel.__new__(tsub.SubprocessChannel)
+    tch.Channel.__init__(first, io)
+    handles = [first]
+    pending = []    # borrow contexts created but not entered yet: (handle index, context manager)
     frames = []     # generator-based context managers of open borrows
     iters = {}      # handle index -> its running read_iter() generator
     out = []
     rot = 0
     for op in line.split():
         f = op.split(":")
+        if f[0] == "bc":
+            h = int(f[1])
+            if h < len(handles) and handles[h] is not None:
+                try:
+                    pending.append((h, handles[h].borrow()))
+                except (tbot.error.ChannelTakenError, tbot.error.ChannelBorrowedError):
+                    pending.append((h, None))       # (a refusal at creation time: it is repeated at entry below)
+            else:
+                pending.append((h, None))
+            continue
+        if f[0] == "drop":
+            import gc
+            h = int(f[1])
+            if h < len(handles):
+                handles[h] = None
+            del h
+            gc.collect()
+            continue
         try:
             res = None
-            if f[0] == "b-":
+            if f[0] == "be":
+                if not pending:
+                    res = "badop"
+                else:
+                    h, cm = pending.pop(0)
+                    if h >= len(handles) or handles[h] is None:
+                        res = "badop"
+                    else:
+                        if cm is None:
+                            cm = handles[h].borrow()
+                        new = cm.__enter__()
+                        frames.append((cm, (len(frames) + h) % 2 == 1))
+                        handles.append(new); res = f"n{len(handles) - 1}"
+            elif f[0] == "b-":
                 if not frames:
                     res = "badop"
                 else:
@@ -151,7 +212,7 @@ def _run(line):
                     res = "ok"
             else:
                 h = int(f[1])
-                if h >= len(handles):
+                if h >= len(handles) or handles[h] is None:
                     res = "badop"
                 else:
                     ch = handles[h]
